@@ -1377,6 +1377,7 @@ class Canon:
         b = lift_walrus(lift_ifexp(b))          # conditional expressions returned by inlined helpers
         used = {n.id for s in b for n in ast.walk(s) if isinstance(n, ast.Name)} | {n.func.id for s in b for n in ast.walk(s) if isinstance(n, ast.Call) and isinstance(n.func, ast.Name)}
         b = [s for s in b if not (isinstance(s, ast.FunctionDef) and s.name not in used)]
+        b = norm.unroll_literal_loops(b)
         b = self.call_layout(b, module, cls)
         b = polarity(b)
         b = or_default(b)
@@ -1393,7 +1394,7 @@ class Canon:
             b = norm.forward_subst(b, pure_calls=_PURE_EXT)
             b = _drop_dead_temps(b)
             b = norm.normalise_loops(b)
-            b2 = norm.fuse_for_over_comp(b, pure_calls=_PURE_EXT)
+            b2 = norm.unroll_literal_loops(norm.fuse_for_over_comp(b, pure_calls=_PURE_EXT))
             if ast.dump(ast.Module(body=b2, type_ignores=[])) != ast.dump(ast.Module(body=b, type_ignores=[])):
                 b = _drop_dead_temps(norm.forward_subst(b2, pure_calls=_PURE_EXT))
         b = expr_norm(b)
